@@ -55,7 +55,8 @@ IMPORTS = ("From PM.theories Require Import Base Ladder Frontends CorrFrontends.
 
 VALID_KINDS = ["r1", "r2", "r3", "r4", "w5", "w6", "w15", "w16", "w22", "w23", "dev", "diag0", "fc7", "fc17"]
 HOSTILE_KINDS = ["trunc", "overlong", "bytecount", "unknown_fc", "unknown_sub", "zero_pdu", "mbap_len", "cut",
-                 "random", "flip", "subst", "insert", "delete", "split", "pipelined"]
+                 "random", "flip", "subst", "insert", "delete", "split", "pipelined",
+                 "noise_trunc", "trunc_split"]
 
 
 def valid_pdu(r, kind, size):
@@ -92,6 +93,16 @@ def hostile(r, kind, framer, uid, size):
     if kind == "trunc":
         k = r.randrange(0, len(base)) if len(base) > 1 else 0
         return [L.frame(framer, tid, uid, base[:max(k, 1)])]
+    if kind in ("noise_trunc", "trunc_split"):
+        # a well-framed request with a truncated PDU (the decoder raises on it) that does NOT sit at the start of
+        # the read: noise bytes in front of it in the same read, or its tail arriving in a read of its own
+        k = r.randrange(1, len(base)) if len(base) > 1 else 1
+        f = L.frame(framer, tid, uid, base[:k])
+        if kind == "noise_trunc":
+            noise = bytes(r.choice([0x00, 0x80, 0xFE, 0x21, 0x47]) for _ in range(r.choice([1, 2, 3])))
+            return [noise + f]
+        c = r.randrange(1, len(f)) if len(f) > 1 else 1
+        return [f[:c], f[c:]]
     if kind == "overlong":
         return [L.frame(framer, tid, uid, base + bytes(r.randrange(256) for _ in range(r.choice([1, 2, 7]))))]
     if kind == "bytecount":
